@@ -2,6 +2,7 @@ package proto
 
 import (
 	"bytes"
+	"encoding/json"
 	"fmt"
 	"math/rand"
 	"strings"
@@ -267,7 +268,8 @@ func check14(c *Case, o *Obs, rec Rec) (vs []viol, inconclusive string) {
 		statusCls = "reserved-" + reservedIn
 	}
 
-	isHTTP := strings.HasPrefix(c.Proto, "http")
+	twirp := strings.HasPrefix(c.Proto, "twirp")
+	isHTTP := strings.HasPrefix(c.Proto, "http") || twirp // status in the HTTP response, no trailers
 	web := strings.HasPrefix(c.Proto, "grpcweb")
 	sameKey := map[string]bool{}
 	for _, h := range sc.Hdr {
@@ -318,7 +320,18 @@ func check14(c *Case, o *Obs, rec Rec) (vs []viol, inconclusive string) {
 			for _, w := range wantHTTP(sc.Code) {
 				ok = ok || w == o.HTTP
 			}
-			if !ok {
+			if twirp {
+				// Twirp error: JSON {code, msg}; the HTTP status is only required to be an error status
+				var te struct {
+					Code string `json:"code"`
+					Msg  string `json:"msg"`
+				}
+				if err := json.Unmarshal(o.Body, &te); err != nil || o.HTTP < 400 {
+					add("status-changed", statusCls, fmt.Sprintf("Twirp error answered with HTTP %d and body %+q", o.HTTP, clip(string(o.Body), 100)))
+				} else if sc.Code <= 16 && te.Code != twirpOfCode[sc.Code] || te.Msg != sc.Msg {
+					add("status-changed", statusCls, fmt.Sprintf("Twirp error carries (%+q, %+q), handler returned (%d, %+q)", te.Code, te.Msg, sc.Code, sc.Msg))
+				}
+			} else if !ok {
 				add("status-changed", statusCls, fmt.Sprintf("HTTP status %d for code %d", o.HTTP, sc.Code))
 			} else if st, why := decodeHTTPStatus(o); st == nil {
 				add("status-changed", statusCls, why)
@@ -655,6 +668,7 @@ var inProtos = []struct {
 }{
 	{"http", true, true}, {"http-sock", true, false}, {"grpc-raw", true, true}, {"grpc-h2c", true, false},
 	{"grpc", false, false}, {"grpcweb", true, true}, {"grpcweb-text", true, false}, {"grpcweb-sock", true, false},
+	{"twirp", true, false}, {"twirp-sock", true, false},
 	{"ws", true, false}, // the WebSocket handshake is an HTTP/1 request served by the transcoding path
 }
 
@@ -699,7 +713,7 @@ func (g *c14Runner) binSweep(proto string, wide bool, vals [][]byte, class strin
 
 // RunC14 is the metadata fidelity check.
 func RunC14(r *mon.Run) {
-	r.Rule = "(in) requests carrying 1-6 custom headers (names over the HTTP token alphabet in mixed case, 1-3 values, '-bin' names with every byte string of length 0-1 (thorough: 0-2) plus boundary/random strings of length 3..500, each sent as padded and as unpadded base64) on HTTP transcoding, raw gRPC (in-process, h2c), grpc-go, gRPC-web binary/text (in-process, HTTP/1 socket) and the WebSocket handshake, plus a class that adds hop-by-hop headers (Connection, Keep-Alive, Proxy-Connection) on the HTTP/1 fronts, which must not become metadata, with the handler registered on the mux and with the same handler on a grpc.Server back-end proxied through RegisterConn; the handler's metadata.FromIncomingContext is compared with what was sent. (out) a scripted handler sets 0-4 header keys (SetHeader or SendHeader) and 0-4 trailer keys before / after its first reply, optionally one protocol-reserved key with a forged value, optionally with gzip-compressed messages (grpc-encoding, compressed and plain calls interleaved on the same mux), optionally keeps mutating / re-using the metadata.MD object it passed in (values overwritten in place, slices replaced, keys added, keys deleted, header MD refilled and passed to SetTrailer), then succeeds or fails before / after the first reply; the client (HTTP response headers, grpc-go Header/Trailer call options, gRPC-web headers + trailer frame) must see every non-reserved key with the values it had at the time of the call, byte-equal, no key added later, never the forged value, and the handler's real status; the gRPC-web trailer frame is checked strictly (every line key: value, lower-case token keys, no key beyond the status keys and the handler's trailer keys). Non-trivial = the scripted handler ran; distinct = (direction, protocol, codec, method, name/value class | outcome, header/trailer set shape, reserved key)"
+	r.Rule = "(in) requests carrying 1-6 custom headers (names over the HTTP token alphabet in mixed case, 1-3 values, '-bin' names with every byte string of length 0-1 (thorough: 0-2) plus boundary/random strings of length 3..500, each sent as padded and as unpadded base64) on HTTP transcoding, raw gRPC (in-process, h2c), grpc-go, gRPC-web binary/text (in-process, HTTP/1 socket) and the WebSocket handshake, plus a class that adds hop-by-hop headers (Connection, Keep-Alive, Proxy-Connection) on the HTTP/1 fronts, which must not become metadata, with the handler registered on the mux and with the same handler on a grpc.Server back-end proxied through RegisterConn; the handler's metadata.FromIncomingContext is compared with what was sent. (out) a scripted handler sets 0-4 header keys (SetHeader or SendHeader) and 0-4 trailer keys before / after its first reply, optionally one protocol-reserved key with a forged value, optionally with gzip-compressed messages (grpc-encoding, compressed and plain calls interleaved on the same mux), optionally keeps mutating / re-using the metadata.MD object it passed in (values overwritten in place, slices replaced, keys added, keys deleted, header MD refilled and passed to SetTrailer), then succeeds or fails before / after the first reply; the client (HTTP response headers - also for Twirp requests -, grpc-go Header/Trailer call options, gRPC-web headers + trailer frame) must see every non-reserved key with the values it had at the time of the call, byte-equal, no key added later, never the forged value, and the handler's real status; the gRPC-web trailer frame is checked strictly (every line key: value, lower-case token keys, no key beyond the status keys and the handler's trailer keys). Non-trivial = the scripted handler ran; distinct = (direction, protocol, codec, method, name/value class | outcome, header/trailer set shape, reserved key)"
 	r.Floor = 120
 	env, err := newEnv()
 	if err != nil {
@@ -822,6 +836,8 @@ func RunC14(r *mon.Run) {
 		ovs = append(ovs, outVar{p, "Echo"}, outVar{p, "SS"})
 	}
 	ovs = append(ovs, outVar{"grpc", "Echo"}, outVar{"grpc", "SS"}, outVar{"grpc", "Bidi"})
+	// Twirp: the implicit /pkg.Service/Method binding with a Twirp-Version header (unary only)
+	ovs = append(ovs, outVar{"twirp", "Echo"}, outVar{"twirp-sock", "Echo"})
 	outcomes := []struct {
 		code    uint32
 		replies int
@@ -843,7 +859,7 @@ func RunC14(r *mon.Run) {
 				replies int
 			}) *Case {
 				codec := "proto"
-				if strings.HasPrefix(v.proto, "http") || rng.Intn(4) == 0 {
+				if strings.HasPrefix(v.proto, "http") || strings.HasPrefix(v.proto, "twirp") || rng.Intn(4) == 0 {
 					codec = []string{"json", "proto"}[rng.Intn(2)]
 				}
 				c := &Case{Kind: "C14out", Proto: v.proto, Codec: codec, Method: v.method, Class: "custom", Target: target,
@@ -948,7 +964,7 @@ func RunC14(r *mon.Run) {
 						if where == "trailer-late" && oc.replies == 0 {
 							continue
 						}
-						if strings.HasPrefix(v.proto, "http") && (where != "header" || rk == "grpc-status-details-bin") {
+						if (strings.HasPrefix(v.proto, "http") || strings.HasPrefix(v.proto, "twirp")) && (where != "header" || rk == "grpc-status-details-bin") {
 							continue // trailers are not obliged on HTTP transcoding; no HTTP client interprets the details key
 						}
 						for _, send := range []bool{false, true} {
